@@ -818,6 +818,9 @@ func tuple(t *rapid.T, pred string) []*rt.Term {
 			lo = int64(u(t, 7, "lo2")) - 3
 		}
 		span := int64(u(t, 5, "span"))
+		if u(t, 10, "widespan") == 0 { // more answers than any small batch an implementation may hand out at once
+			span = 30 + int64(u(t, 80, "span2"))
+		}
 		hi := lo + span
 		if hi < lo { // wrapped
 			hi = math.MaxInt64
